@@ -94,6 +94,13 @@ def cases(tier, seed):
         for s0 in [(k,) for k in KL]:
             for s1 in ((), ('IG',), ('PG',)):
                 yield [[list(s0), list(s1)], [['never']], 'fresh', None, None, None, ign]
+    # the test after the leaking one never runs (skipped by decorator / class):
+    # nothing may be reported for it, whatever is still alive
+    for s0 in [(k,) for k in KL] + [('TB', 'LB')]:
+        for pol in ('fresh', 'recycle'):
+            for scr2 in ('skip_dec', 'skip_cls'):
+                for third in ((), ('TB',)):
+                    yield [[list(s0), [], list(third)], [['never'] * len([k for k in s0 if KINDS[k][2]]), []], pol, None, None, None, None, scr2]
     one = [()] + [(k,) for k in KL]
     # real threads: conformance of the virtual thread table with the platform
     for s0, s1 in itertools.product(one, repeat=2):
@@ -179,7 +186,9 @@ def run_case(case):
         # the first test goes on after starting its threads: a skipped or
         # failing subtest (result events in the middle of the test)
         spec['tests'][0]['s'] = case[4]
-    ignore = IGNSETS[case[6]] if len(case) > 6 else IGNORE
+    ignore = IGNSETS[case[6]] if len(case) > 6 and case[6] is not None else IGNORE
+    if len(case) > 7 and case[7]:
+        spec['tests'][1]['s'] = case[7]
     if len(case) > 5 and case[5]:
         if case[5] == 'in_test2':
             spec['tests'][1]['th'] = [['touch', 't0a']] + list(spec['tests'][1].get('th') or [])
